@@ -879,6 +879,7 @@ class Dict(dict, base.Symbolic, pg_typing.CustomTyping):
           typing.Dict[Union[str, int], Any],
           Iterable[Tuple[Union[str, int], Any]]
       ] = None,
+      /,
       **kwargs
   ) -> None:  # pytype: disable=signature-mismatch
     """Update Dict with the same semantic as update on standard dict."""
